@@ -517,3 +517,10 @@ Proof.
   pose proof (call_request_exact t _ r (binary_msg_ok h nl v Hh Hn Hv)) as (Ho & Hs & _).
   rewrite <- Ho. split; [tauto|]. intros H. split; [exact H|]. apply Hs. apply Ho. exact H.
 Qed.
+
+(** ** constants *)
+Lemma codes_agree :
+  app_response_too_large_written = app_response_too_large_mapped
+  /\ process_reply FTooLarge = RespTooLarge
+  /\ request_limit TNats = nats_max /\ publish_limit PNats = nats_max.
+Proof. repeat split. Qed.
